@@ -210,6 +210,21 @@ def case_uri(ctx: Any, rng: random.Random) -> None:
     want_flat = {k: str(v) for k, v in args.items()}
     if flat != want_flat:
         ctx.violation("uri/params-differ", "parameter map differs after round trip", {"kind": "uri", "case": case, "got": flat})
+    if args and rng.random() < 0.4:
+        # a key written twice: the documented reading (TargetURI.qs_flat) is "the first found key/value pair"
+        from urllib.parse import quote
+
+        k2 = rng.choice(sorted(args))
+        other = rng.choice(["0", "1", "0xff", "7", "zz"])
+        raw2 = raw + ("&" if "?" in raw else "?") + f"{quote(k2)}={other}"
+        ctx.reach("uri.repeated-key")
+        try:
+            flat2 = TargetURI(raw2).qs_flat
+        except Exception as e:
+            ctx.violation(f"uri/repeated-key/raises/{type(e).__name__}", "a URI with a repeated query key cannot be read", {"kind": "uri", "case": {**case, "uri": raw2}, "error": repr(e)})
+        else:
+            if flat2 != want_flat and str(args[k2]) != other:
+                ctx.violation("uri/repeated-key/not-first-value", "for a key written twice the parameter map does not hold the first value", {"kind": "uri", "case": {**case, "uri": raw2}, "got": flat2})
     loc_ok = u.location == f"{scheme}://{u.netloc}"
     if not loc_ok:
         ctx.violation("uri/location", "location is not scheme://netloc", {"kind": "uri", "case": case, "got": u.location})
